@@ -116,6 +116,16 @@ def rule_rx_newline(cx, rep, port):
             if isinstance(r, ast.Return) and isinstance(r.value, ast.Call) and isinstance(r.value.func, ast.Attribute) and r.value.func.attr == 'split' and r.value.args and isinstance(r.value.args[0], ast.Constant):
                 rep.violated('newline split path', r, 'on some path the text is split on the constant {!r} only: CR and CRLF line breaks are then not recognised, and whether that path is taken depends on where the chunk starts'.format(r.value.args[0].value))
                 return
+    if port == 'js':
+        # split() always yields at least one piece, and the stream reader relies on it (`partial + lines[0]`): a path of
+        # split_lines that returns something else changes what a chunk that decodes to '' (a split multi-byte character) means
+        fd = p.func('csv_utils', 'split_lines')
+        for r in walk_no_nested(fd):
+            if isinstance(r, ast.Return) and r.value is not None and not (isinstance(r.value, ast.Call) and isinstance(r.value.func, ast.Attribute) and r.value.func.attr == 'split'):
+                if isinstance(r.value, (ast.List, ast.Tuple)) and not r.value.elts:
+                    rep.violated('newline split result', r, 'split_lines returns an empty array on a path: text.split() never does (empty text is one empty line), and the stream reader glues `lines[0]` (now undefined) to the pending partial line when a chunk decodes to the empty string')
+                    return
+                rep.undecided('newline split result', r, 'split_lines returns `{}`, not the result of split()'.format(node_text(r.value, 40)))
     if not found:
         raise Undecided('newline regex not found', (p.files['csv_utils'], 0))
     pat, flags, node = found
@@ -183,6 +193,20 @@ def rule_rx_ws(cx, rep, port):
     if plain:
         rep.violated('whitespace split `{}`'.format(node_text(plain[0])), plain[0], 'fields are produced by `{}`, which splits on every kind of whitespace (TAB, NBSP, ...) instead of runs of the space character only'.format(node_text(plain[0])))
         return
+    # nor anywhere else in the CSV layer (a per-policy splitter table, a lambda, a fast path): zero sites expected
+    def generic_split(c):
+        return isinstance(c, ast.Call) and isinstance(c.func, ast.Attribute) and c.func.attr == 'split' and (not c.args or (isinstance(c.args[0], ast.Constant) and c.args[0].value is None)) and not c.keywords
+    probe = ast.parse('fields = src.split()').body[0].value
+    if not generic_split(probe):
+        rep.undecided('generic whitespace split matcher', fd, 'the matcher for argument-less split() does not recognise its own positive example')
+    for mod in ('csv_utils', 'rbql_csv'):
+        if mod not in p.modules:
+            continue
+        hits = [c for c in ast.walk(p.modules[mod]) if generic_split(c)]
+        if hits:
+            rep.violated('generic whitespace split in ' + mod, hits[0], '`{}` splits on every kind of whitespace (TAB, NBSP, ...): the whitespace policy separates fields by runs of the space character only, and the writer and the other port do so'.format(node_text(hits[0])))
+            return
+        rep.holds('generic whitespace split in ' + mod, (p.files[mod], 0), 'no argument-less split() in the module (matcher checked on a positive example)')
     rep.require_count('whitespace regexes', len(pats), 2, fd)
     refs = {'[^ ]+': 'maximal runs of non-space characters', ' *[^ ]+ *': 'runs with their surrounding spaces'}
     for pat, node in pats:
@@ -853,3 +877,27 @@ def rule_cs_writer(cx, rep, port):
                 rep.violated('separator check coverage', bad.node if bad.node is not None else wr, 'a record line can reach the stream on a path where the "separator inside a field" check is switched on but never runs (conditions: {}): lossy simple/whitespace output stays silent for such records'.format(' and '.join(('' if pol else 'not ') + node_text(t_, 40) for t_, pol in bad.conds[-3:])))
             else:
                 rep.decide(n_paths >= 1, 'separator check coverage', wr, 'every path that writes a record line ran the separator check when it is switched on', 'no writing path found')
+
+
+def rule_cs_reader(cx, rep, port):
+    """the CSV reader turns a line into a record with the dialect's one splitter, smart_split(line, delim, policy): the function
+    whose dispatch table, regexes and accept test the other CS-* rules decide.  A reader that splits some other way is outside what
+    those rules cover (UNDECIDED, not a violation)."""
+    from ..snippet import inline_single_defs
+    p = cx.port(port)
+    cls = p.cls('rbql_csv', 'CSVRecordIterator')
+    mname = 'get_record' if port == 'py' else 'process_record_line'
+    ms = [m for m in cls.body if isinstance(m, ast.FunctionDef) and m.name == mname]
+    if not ms:
+        raise Undecided('anchor vanished: CSVRecordIterator.' + mname, cls)
+    fd = ms[0]
+    calls = [c for c in walk_no_nested(fd) if isinstance(c, ast.Call) and (dotted(c.func) or '').split('.')[-1] == 'smart_split']
+    if len(calls) != 1:
+        rep.undecided('reader splitter', fd, '{} does not split the line with exactly one smart_split() call ({} found): what produces the record is not the function the CS rules analyse'.format(mname, len(calls)))
+        return
+    c = calls[0]
+    args = [node_text(inline_single_defs(a, fd, depth=2), 60) for a in c.args]
+    ok = len(args) >= 3 and args[1] == 'self.delim' and args[2] == 'self.policy'
+    rep.decide(ok, 'reader splitter', c, 'records = smart_split(line, self.delim, self.policy, ...)', 'smart_split is not called with the reader\'s own delimiter and policy (`{}`)'.format(', '.join(args)))
+    pres = c.args[3] if len(c.args) > 3 else next((k.value for k in c.keywords if k.arg == 'preserve_quotes_and_whitespaces'), None)
+    rep.decide(pres is not None and is_false(pres), 'reader unquotes', c, 'quotes and padding are removed from the fields (preserve = False)', 'the reader keeps quotes / surrounding whitespace in the fields')
